@@ -57,6 +57,7 @@ type APIEvent struct {
 	Coe   bool    `json:"coe"`
 	Deps  [][]int `json:"deps"`
 	Cls   []int   `json:"cls"`
+	JC    []int   `json:"jc"` // reset: context (1 or 2) each job is enqueued with
 	P     int     `json:"p"`
 	R     int     `json:"r"`
 	W     int     `json:"w"`
@@ -98,6 +99,9 @@ func (l *APILog) Add(e APIEvent) int64 {
 	}
 	if e.Cls == nil {
 		e.Cls = []int{}
+	}
+	if e.JC == nil {
+		e.JC = []int{}
 	}
 	l.evs = append(l.evs, e)
 	n := l.n
